@@ -219,6 +219,9 @@ def run(repo, R):
         per_type = ao_count_per_type(other)
         if per_type is None:
             raise AnalysisError("D2", f"expected size `{ast.unparse(other)[:60]}` is not a sum over the shells of (functions per shell) x (segments)", f.where(node))
+        if "__defect__" in per_type:
+            R.fail("D2", f.site, "atomic-orbital count: " + ast.unparse(other)[:60], per_type["__defect__"] + ": AttributeError on this branch", where=f.where(node))
+            continue
         NS, NC, M_ = sp.symbols("num_sph num_cart num_seg_cont", positive=True)
         want = {"cartesian": NC * M_, "spherical": NS * M_}
         types = {"cartesian": ["cartesian"], "spherical": ["spherical"], "mix": ["cartesian", "spherical"], "any": ["cartesian", "spherical"],
@@ -265,8 +268,15 @@ def ao_count_per_type(expr):
     if isinstance(g.target, ast.Name):
         shell_var = g.target.id
     elif isinstance(g.target, ast.Tuple) and len(g.target.elts) == 2 and all(isinstance(x, ast.Name) for x in g.target.elts) \
-            and isinstance(g.iter, ast.Call) and dotted(g.iter.func) == "zip":
-        shell_var, type_var = g.target.elts[0].id, g.target.elts[1].id
+            and isinstance(g.iter, ast.Call) and dotted(g.iter.func) == "zip" and len(g.iter.args) == 2:
+        # the shells come from the argument that is the basis, the types from the other one - whatever the order of the target names
+        names = [ast.unparse(a_) for a_ in g.iter.args]
+        if "basis" in names[0] and "basis" not in names[1]:
+            shell_var, type_var = g.target.elts[0].id, g.target.elts[1].id
+        elif "basis" in names[1] and "basis" not in names[0]:
+            shell_var, type_var = g.target.elts[1].id, g.target.elts[0].id
+        else:
+            return None
     else:
         return None
     NS, NC, M_ = sp.symbols("num_sph num_cart num_seg_cont", positive=True)
@@ -279,6 +289,10 @@ def ao_count_per_type(expr):
             return e.value
         if isinstance(e, ast.Name) and e.id == type_var:
             return tname
+        if isinstance(e, ast.Name) and e.id == shell_var:
+            raise AttributeError(f"the shell object `{e.id}` is used where its coordinate type is expected (the loop variables are bound in the other order)")
+        if isinstance(e, ast.Attribute) and isinstance(e.value, ast.Name) and e.value.id == type_var:
+            raise AttributeError(f"`{ast.unparse(e)}` reads an attribute of the coordinate-type string (the loop variables are bound in the other order)")
         if isinstance(e, ast.Attribute) and isinstance(e.value, ast.Name) and e.value.id == shell_var:
             if e.attr in attr:
                 return attr[e.attr]
@@ -298,6 +312,8 @@ def ao_count_per_type(expr):
     for tname in ("cartesian", "spherical"):
         try:
             out[tname] = ev(expr.args[0].elt, tname)
+        except AttributeError as ex:
+            return {"__defect__": str(ex)}
         except (ValueError, TypeError):
             return None
     return out
